@@ -4,7 +4,7 @@
    stream the real xflate.Writer produces for the C07 check. *)
 From V Require Import Base.Prelude Base.Prog Meta.Model Flate.Spec
   XFlate.Index XFlate.Search XFlate.Reader XFlate.Refine XFlate.Witness.
-Open Scope Z_scope.
+Local Open Scope Z_scope.
 
 Definition chunk_okb (data : list byte) (T : list record) (content : list byte) (n : nat) : bool :=
   let i := Z.of_nat n in
